@@ -188,9 +188,13 @@ def c03(m, obs, mech):
             got = sum(sl.values()) * eff / 60.0
             if abs(got - want) > eff / 60.0 + EPS:
                 out.append(V("C03", "effort-mismatch", dict(task=tid, r=rid, booked_effort_min=got, want_min=want, eff=eff), mech.task(tid, rid)))
-            small = [i for i, s in sl.items() if s <= 0.5]
-            if small:
-                out.append(V("C03", "extra-slot-beyond-effort", dict(task=tid, r=rid, slots=small, secs=[sl[i] for i in small]),
+            # no further slot beyond the effort: without the slot in which the task finished (last in its walking
+            # direction) the effort must not have been reached yet
+            fin = max(sl) if t["fwd"] is not False else min(sl)
+            before_final = (sum(sl.values()) - sl[fin]) * eff / 60.0
+            if len(sl) > 1 and before_final >= want - 1e-7:
+                out.append(V("C03", "extra-slot-beyond-effort", dict(task=tid, r=rid, final_slot=fin, secs_in_final=sl[fin],
+                                                                    effort_before_final_min=before_final, want_min=want),
                              mech.task(tid, rid) + ["float-extra-slot"]))
             if len(usage) > 1:
                 break  # team: members compared above, effort counted once
@@ -225,7 +229,10 @@ def c04(m, obs, mech):
                 continue  # not claimed
             n_edges += 1
             if not po["sch"] or po["end"] is None or po["start"] is None:
-                out.append(V("C04", "scheduled-before-predecessor-was", dict(task=tid, pred=ptid), mech.dep(t, d, obs)))
+                # forward: readiness demands every predecessor to be placed first. backward: the successor is
+                # placed first by design; a predecessor that later fails has no end to compare with (not claimed).
+                if fwd:
+                    out.append(V("C04", "scheduled-before-predecessor-was", dict(task=tid, pred=ptid), mech.dep(t, d, obs)))
                 continue
             base = po["start"] if d.get("onstart") else po["end"]
             bound = base + timedelta(minutes=d.get("gap_min", 0))
